@@ -59,7 +59,9 @@ def sealStep (st : RState) (side : Nat) (plain : Bytes) (hdr : Bytes) (len : Nat
     let problem : Option String :=
       if st.used.contains (key, nonce) then some "C04 (key, nonce) pair used twice"
       else if prev.any (fun d => d.nonce ≥ nonce) then some "C04 nonce not strictly increasing under this key"
-      else if (decide (nonce ≥ half95)) != sd.half then some "C04 nonce outside the sender's half"
+      -- the half is guaranteed for fewer than 2^95 - 2^48 seals per key (the bound of `C04.stays_in_half`); a counter that a script has put
+      -- at the very top of its half runs on upwards out of it — what matters there is that it never comes back (the two rules above)
+      else if (decide (nonce ≥ half95)) != sd.half && !(prev.any (fun d => d.nonce % half95 ≥ half95 - 2 ^ 48)) then some "C04 nonce outside the sender's half"
       else if nonce ≥ 2 ^ 96 then some "C04 nonce out of range"
       else if hdr ≠ sd.cur :: Bytes.ofBE 7 nonce then some "header is not key id + low 7 nonce bytes"
       else if len ≠ plain.length + 24 then some "C02 length is not plaintext + header + tag"
